@@ -94,7 +94,7 @@ def gen(rng, tier, index):
         opts["event_callback"] = None  # the documented default: no callback
     latency = rng.choice([0.0, 0.0, 0.04, 0.12, 0.15, 0.19, 0.3]) if flavour in ("tcp", "atcp") else 0.0
     return {"cfg": {"flavour": flavour, "opts": opts, "readme": False, "node_version": version_strings(rng), "node_sub": rng.choice([17, 17, 18]),
-                    "probe_latency": latency,
+                    "probe_latency": latency, "bystander": rng.random() < 0.3,
                     "connect_plan": rng.choice([["ok"], ["fail", "ok"], ["fail", "fail", "ok"], ["timeout", "ok"]]
                                                + ([["unreach", "ok"], ["unreach", "fail", "ok"]] if flavour in ("tcp", "atcp") else []))}}
 
@@ -141,6 +141,30 @@ def run(case):
                 violations.append(_vio("constructor-raised", {"flavour": flavour, "opts": {k: repr(v) for k, v in opts.items()}, "exc": repr(exc)},
                                        exc=type(exc).__name__, keys=",".join(sorted(k for k in opts if k in str(exc)))))
                 raise _Done()
+            bystander_calls = []
+            if cfg.get("bystander"):
+                # the application has a second gateway object of the same class with options of its own (constructed after the
+                # first, never started): the options of the one under test must keep taking effect, nothing of its traffic may
+                # show up at the other's callbacks
+                other = dict(opts)
+                other.pop("persistence", None)
+                other.pop("persistence_file", None)
+                other["event_callback"] = lambda msg: bystander_calls.append(("event", msg.node_id))
+                if "reconnect_timeout" in other or flavour in ("tcp", "atcp"):
+                    other["reconnect_timeout"] = 77.0
+                try:
+                    if W.is_mqtt(flavour):
+                        other["in_prefix"], other["out_prefix"] = "bystander-out", "bystander-in"
+                        import mysensors.gateway_mqtt as _gm  # pylint: disable=import-outside-toplevel
+                        cls = _gm.MQTTGateway if flavour == "mqtt" else _gm.AsyncMQTTGateway
+                        bystander = cls(lambda *a: bystander_calls.append(("pub",) + a[:1]), lambda *a: bystander_calls.append(("sub",) + a[:1]), **other)
+                    else:
+                        bystander = W._construct(flavour, other, None)  # pylint: disable=protected-access
+                    probes["second_gateway_object_alive"] = 1
+                    _ = bystander
+                except Exception as exc:  # pylint: disable=broad-except
+                    violations.append(_vio("constructor-raised", {"flavour": flavour, "note": "second gateway object", "exc": repr(exc)}, exc=type(exc).__name__, keys="second"))
+                    raise _Done()
             rt = opts.get("reconnect_timeout", 10.0)
             world.device.connect_plan = list(cfg["connect_plan"])
             if cfg.get("probe_latency"):
@@ -287,6 +311,9 @@ def run(case):
                                                                    "closed_at": [round(c.closed_at, 3) for c in dropped], "rt": rt,
                                                                    "attempts": [(round(a[0], 3), a[1]) for a in world.device.attempts][:8]},
                                            option="reconnect_timeout(watchdog)"))
+            if bystander_calls and not violations:
+                violations.append(_vio("option-not-honoured", {"note": "traffic of the gateway under test reached the callbacks of another gateway object",
+                                                               "calls": [repr(c)[:80] for c in bystander_calls[:5]]}, option="second gateway object"))
             # ---- persistence file ---------------------------------------------------------------------
             world.stop()
             world.settle()
@@ -305,11 +332,25 @@ def run(case):
                                                option="persistence", callback="none" if no_cb else "given"))
                     elif not violations:
                         # ... and through the documented API of this gateway class: restored when start_persistence() returns
-                        world.build()
+                        if broker is not None:
+                            del broker.subs[:]  # a new client session: what the stopped gateway had subscribed is gone
+                        restarted = world.build()
                         world.device.connect_plan = []
                         try:
                             world.start(persistence=True)
                             restored = world.after_start_persistence
+                            if broker is not None and restored == held and 1 in held and 1 in held[1].get("children", {}):
+                                # the restored child is reachable under the configured prefix: a report for it arrives
+                                cb0 = len(world.callbacks)
+                                _send(world, broker, "1;1;1;0;2;0")
+                                got_val = restarted.sensors[1].children[1].values.get(2) if 1 in restarted.sensors and 1 in restarted.sensors[1].children else None
+                                if got_val != "0" or (len(world.callbacks) == cb0 and not no_cb):
+                                    violations.append(_vio("option-not-honoured", {"note": "a report for a child restored from the persistence file does not reach the restarted gateway",
+                                                                                   "in_prefix": opts.get("in_prefix", ""), "subscriptions": [s[0] for s in broker.subs][:8]},
+                                                           option="in_prefix+persistence(restored child)"))
+                                else:
+                                    probes["restored_child_reachable_over_mqtt"] = 1
+                                    _send(world, broker, "1;1;1;0;2;1")  # back to what it was
                             world.stop()
                             world.settle()
                         except (kernel.SimAbort, kernel.Deadlock):
